@@ -88,11 +88,19 @@ def run_chain(args):
         out['why'] = twin['status'] + ':' + str(twin.get('error'))[:200]
         return out
     ops = e1.draw_history(rng, cfg, twin['timeline'], PROFILE)
-    if rng.random() < 0.2:
+    r = rng.random()
+    if r < 0.12:
         # a leftover checkpoint of an earlier computation sits at the path;
         # the user starts over with resume=False
         ops = [['run', rng.choice([1, 3, 10, 40, 400])], ['restart_fresh']] \
             + ops
+    elif r < 0.24:
+        # ... and the new computation is stopped early (before its first
+        # bound insertion) and resumed from the file
+        ops = [['run', rng.choice([2, 10, 40, 400, 400])],
+               ['restart_fresh'], ['run', rng.choice([1, 1, 2, 3])],
+               rng.choice([['stop_resume'], ['kill', 0, 0, None]]),
+               ['finish']]
     out['ops'] = ops
     res = e1.execute(dict(cfg=cfg, ops=ops, tag='hist'), [MonRepeat()],
                      wall=RUN_WALL * 3)
